@@ -119,6 +119,7 @@ type Interp struct {
 	bind      map[int]*Term
 	bindMemo  map[int]*Term
 	maxPreempt int
+	maxDeviate int
 	ctxSeq    int
 	errTypes  map[string]types.Type
 	stats     struct {
@@ -299,6 +300,8 @@ func (in *Interp) callIntrinsicValue(caller *frame, f *FuncV, args []Value) Valu
 	return fn(in, caller, nil, args)
 }
 
+var atomicPackages = map[string]bool{"context": true}
+
 // callSSABody interprets fn's real body even if an intrinsic is registered.
 func (in *Interp) callSSABody(caller *frame, fn *ssa.Function, args []Value) Value {
 	fi := in.info(fn)
@@ -333,6 +336,13 @@ func (in *Interp) callSSA(caller *frame, pos token.Pos, fn *ssa.Function, args [
 	in.depth++
 	if in.depth > in.maxDepth {
 		in.unsupported("call depth exceeded at %s", fn.String())
+	}
+	if in.g != nil && fn.Pkg != nil && atomicPackages[fn.Pkg.Pkg.Path()] {
+		// functions of these packages are executed as one atomic step of the calling
+		// goroutine (their internal mutexes are never held across a return)
+		g := in.g
+		g.atomic++
+		defer func() { g.atomic-- }()
 	}
 	fr := &frame{in: in, fn: fn, info: fi, caller: caller, g: in.g}
 	fr.locals = make([]Value, fi.n)
